@@ -70,7 +70,37 @@ X3_08 = """program progMain
   end block
 end program progMain
 """
-SOURCES = dict(V1=V1, V2=V2, I1=I1, I2=I2, I3=I3, I4=I4, IK=IK, X1=X1, X2=X2, X3=X3_08)
+# names whose meaning depends on the standard: intrinsics of Fortran 2008 only (ordinary references under f2003)
+V3 = """program progMain
+  real :: xPos, yVal, aVec(3)
+  integer :: iCnt
+  xPos = erf(yVal) + gamma(xPos) + norm2(aVec)
+  iCnt = shiftl(iCnt, 2) + shiftr(iCnt, 1) + shifta(iCnt, 3)
+  yVal = bessel_j0(xPos) + hypot(xPos, yVal) + log_gamma(yVal)
+end program progMain
+"""
+X4 = """subroutine subTwo(xPos, iCnt)
+  real :: xPos
+  integer :: iCnt
+  xPos = gamma(xPos) * erf(xPos) + sin(xPos)
+  iCnt = shiftl(iCnt, 1) + popcnt(iCnt)
+end subroutine subTwo
+"""
+SOURCES = dict(V1=V1, V2=V2, V3=V3, I1=I1, I2=I2, I3=I3, I4=I4, IK=IK, X1=X1, X2=X2, X3=X3_08, X4=X4)
+
+
+class _Sources(dict):
+    """G<seed> = a generated valid program (f2003 subset: acceptable to both parsers)"""
+
+    def __missing__(self, name):
+        if name[0] == "G":
+            st, _ = gen.gen_program(int(name[1:]), "f2003", size=0.4)
+            self[name] = gen.render(st)
+            return self[name]
+        raise KeyError(name)
+
+
+SOURCES = _Sources(SOURCES)
 
 
 def observe(p, src, kw):
@@ -117,22 +147,43 @@ def run_history(arg):
 
 
 def fresh_reference(arg):
-    std, xname, kw = arg
-    code = ("import sys, json; sys.path.insert(0, %r); sys.path.insert(0, '/repo/src');"
-            "import props.c09 as m;"
-            "print(json.dumps(m.run_history(([('create', %r)], %r, %r, %r))['final']))"
-            % (os.path.join(common.VERIF, "tools"), std, std, xname, kw))
-    r = subprocess.run([sys.executable, "-c", code], capture_output=True, text=True, timeout=120,
-                       env=dict(os.environ, PYTHONHASHSEED="0"))
-    out = [l for l in r.stdout.split("\n") if l.startswith("[")]
-    if not out:
-        raise RuntimeError("fresh reference failed: " + r.stderr[-500:])
-    return tuple(json.loads(out[-1]))
+    return fresh_references([arg])[0]
+
+
+def fresh_references(keys):
+    """create(std); parse(X) for each key, each in a process that has parsed nothing before: one helper
+    interpreter imports the modules and forks a child per key"""
+    code = (
+        "import sys, json, os\n"
+        "sys.path.insert(0, %r); sys.path.insert(0, '/repo/src')\n"
+        "import props.c09 as m\n"
+        "keys = json.loads(sys.stdin.read())\n"
+        "for k, (std, x, kw) in enumerate(keys):\n"
+        "    r, w = os.pipe()\n"
+        "    pid = os.fork()\n"
+        "    if pid == 0:\n"
+        "        os.close(r)\n"
+        "        out = m.run_history(([('create', std)], std, x, kw))['final']\n"
+        "        os.write(w, json.dumps(out).encode()); os._exit(0)\n"
+        "    os.close(w)\n"
+        "    data = b''\n"
+        "    while True:\n"
+        "        c = os.read(r, 1 << 16)\n"
+        "        if not c: break\n"
+        "        data += c\n"
+        "    os.close(r); os.waitpid(pid, 0)\n"
+        "    print('REF ' + data.decode())\n" % os.path.join(common.VERIF, "tools"))
+    r = subprocess.run([sys.executable, "-c", code], input=json.dumps([list(k) for k in keys]), capture_output=True,
+                       text=True, timeout=1200, env=dict(os.environ, PYTHONHASHSEED="0"))
+    out = [l[4:] for l in r.stdout.split("\n") if l.startswith("REF ")]
+    if len(out) != len(keys):
+        raise RuntimeError("fresh references failed: " + r.stderr[-500:])
+    return [tuple(json.loads(o)) for o in out]
 
 
 def histories(ctx):
-    alpha = [("create", "f2003"), ("create", "f2008"), ("parse", "V1"), ("parse", "V2"), ("parse", "I1"),
-             ("parse", "I2"), ("parse", "I3"), ("parse", "I4")]
+    alpha = [("create", "f2003"), ("create", "f2008"), ("parse", "V1"), ("parse", "V2"), ("parse", "V3"),
+             ("parse", "I1"), ("parse", "I2"), ("parse", "I3"), ("parse", "I4")]
     maxlen = ctx.n(2, 3)
     hs = [()]
     for n in range(1, maxlen + 1):
@@ -146,8 +197,14 @@ def histories(ctx):
     for h in hs:
         for std in ("f2003", "f2008"):
             for f in fails:
-                for x in (["X1", "X2"] + (["X3"] if std == "f2008" else [])):
+                for x in (["X1", "X2", "X4"] + (["X3"] if std == "f2008" else [])):
                     cases.append((h + (("create", std),) + f, std, x))
+    # generated programs parsed under one standard, then another generated program under the other
+    for k in range(ctx.n(60, 1500)):
+        a, b, x = ("G%d" % (ctx.seed * 7 + 3 * k + j) for j in range(3))
+        s1, s2 = ("f2003", "f2008") if k % 2 else ("f2008", "f2003")
+        cases.append(((("create", s1), ("parse", a), ("parse", "V3"), ("create", s2), ("parse", b), ("create", s1 if k % 4 < 2 else s2)),
+                      s1 if k % 4 < 2 else s2, x))
     return cases
 
 
@@ -172,14 +229,16 @@ def run(ctx):
     # ---- Leg E: histories against fresh-process references
     kws = [dict(ignore_comments=True), dict(ignore_comments=False)]
     refs = {}
-    keys = [(std, x, kw) for std in ("f2003", "f2008") for x in ("X1", "X2", "X3") for kw in kws
-            if not (x == "X3" and std == "f2003")]
-    for key, (st, r) in zip(keys, pool.pmap(fresh_reference, keys)):
-        if st != "ok":
-            raise RuntimeError(r)
-        refs[(key[0], key[1], key[2]["ignore_comments"])] = r
     cases = histories(ctx)
     args = [(ops, std, x, kws[i % 2]) for i, (ops, std, x) in enumerate(cases)]
+    keys = sorted({(std, x, kw["ignore_comments"]) for _, std, x, kw in args})
+    chunks = [keys[i::8] for i in range(8)]
+    for ch, (st, r) in zip(chunks, pool.pmap(fresh_references, [[(a, b, dict(ignore_comments=c)) for a, b, c in ch]
+                                                               for ch in chunks], chunksize=1)):
+        if st != "ok":
+            raise RuntimeError(r)
+        for key, val in zip(ch, r):
+            refs[key] = val
     res = pool.pmap(run_history, args, chunksize=16)
     failures = []
     nfail_parse = 0
